@@ -176,7 +176,7 @@ class ART1(BaseART):
 
         """
         w_td_new = i
-        w_bu_new = (params["L"] / (params["L"] - 1 + self.dim_)) * w_td_new
+        w_bu_new = (params["L"] / (params["L"] - 1 + l1norm(w_td_new))) * w_td_new
         return np.concatenate([w_bu_new, w_td_new])
 
     def get_cluster_centers(self) -> List[np.ndarray]:
